@@ -54,6 +54,29 @@ CHECKS.update({
         note="Not decided: statistical quality/independence of rand's generator (trusted dependency)."),
 })
 
+TOK = "token-level abstract interpretation (strings / formatter output as token lists, format-string literals read from the macro call)"
+OPQ = "abstract interpretation of the container code on symbolic containers of fixed small length whose element methods are opaque predicates"
+CHECKS.update({
+    "C09": dict(cat="other", ref="3 C09", technique=TOK + " for the printers; abstract interpretation of the parser on symbolic strings partitioned by length, with a summary of u64::from_str_radix",
+        text="to_hex_string/to_bin_string emit one zero-padded lower-hex/binary token per word, most significant word first, with the specified per-word width; Display/LowerHex/Binary wrap them as Lut<n>(...). from_hex_string: wrong lengths and non-ASCII text only reach Err, no path panics (slicing guarded), on every Ok path each chunk passed an all-hex-digits test before from_str_radix (which accepts '+'), lands in the matching word and fits in 2^n bits.",
+        note="Not decided: that core::fmt renders the value's digits (trusted std), upper-case acceptance. n in 0..8 / 0..12."),
+    "C12": dict(cat="other", ref="3 C12", technique="lane abstraction: conditions/results of the 32-lane cube code are shown to be uniform per-lane predicates/functions and compared with the semantic specification on every non-empty set of lane values; shift constructors by bitflow in 32-bit word mode",
+        text="value, is_zero/is_one/is_constant, implies, intersects, all four & forms, from_mask and derived equality are exact for all canonical cubes at once (32 lanes, symbolic), contradictory products are the one canonical zero; minterm is exact for every num_vars in 0..=32 with a symbolic assignment; nth_var/nth_var_inv/one/zero as specified.",
+        note="Not decided: implies_lut, literal/gate counts, Cube::all and from_vars (iterator chains / slices of runtime length). Inputs are canonical cubes (fields private; every analysed constructor returns canonical cubes). Trusted lemma: containment of literal sets is implication for canonical cubes."),
+    "C13": dict(cat="other", ref="3 C13", technique="bitflow with xor-sum bit values for Ecube (all 32 lanes); " + OPQ + " for Soes",
+        text="Ecube::value is the parity of (vars & m) xor the flag for all 2^32 terms and assignments; ^ and ! act field-wise in all 6 forms; constants, single-variable terms, is_zero/is_one exact; equality derived over a canonical representation. Soes (0..3 symbolic terms): value is the OR over all terms, all four | forms keep every term of both operands, conversion to Lut tabulates value (n<=3), is_zero only for the empty form, is_one only when a term is the constant one.",
+        note="Not decided: Ecube::all enumerates all 2^(n+1) terms. Containers analysed for lengths 0..3 (length-generic loops)."),
+    "C14": dict(cat="other", ref="3 C14", technique=OPQ + " (value, products, is_zero, implies, == opaque); per-path comparison with the specification of simplification, union, product, complement; Lut->Sop on symbolic tables",
+        text="value is the OR of all cubes; every form of | and & runs the simplification last on the container it returns; | keeps all cubes, & forms all pairwise products; simplification drops exactly zero cubes, sorts+dedups, and keeps a cube iff it implies no other cube (receiver/argument roles); complement is the De Morgan fold from the constant one with inverted literals; Lut->Sop emits exactly the minterms (n<=2 quick, 3 thorough); is_zero/is_one sound.",
+        note="Not decided: that absorption preserves the function (trusted lemma), sort/dedup themselves (std, recorded as events). Lengths 0..3."),
+    "C15": dict(cat="other", ref="3 C15", technique=OPQ + "; Lut->Esop by path-sensitive abstract interpretation on symbolic tables (every abstract path)",
+        text="value is the XOR of all cubes; ^ concatenates in all four forms; ! appends exactly one constant-one cube; conversion to Lut tabulates value; is_zero/is_one only for the constants. Lut->Esop (n<=2 quick, 3 thorough): on every path the emitted cubes are all-positive, below 2^n, strictly increasing, and exactly the non-zero algebraic-normal-form coefficients of the path's function.",
+        note="Lut->Esop is bounded to n<=3 (one abstract path per function); larger n not decided."),
+    "C16": dict(cat="other", ref="3 C16", technique=TOK + "; cube/ecube printers followed on every abstract path of a symbolic object over variable windows, text compared with the object through the grammar",
+        text="Cube and Ecube text over windows {0,1,2}, two-digit indices and variable 31: every object prints a product / xor of its literals in increasing order, 1/0 for the constants, distinct objects distinct text. Sop/Soes join their terms with ' | ' and Esop with ' ^ ' (the operator value() reduces with), each term once in order, empty form prints 0.",
+        note="Not decided: precedence beyond the joiner (term text never contains a looser joiner). Windows are samples of the 32 variables; the printer loop is index-generic."),
+})
+
 NOT_APPLICABLE = {
     "C07": "bdd_complexity is the cardinality of sorted+deduplicated sets of runtime sub-tables; no sound static argument in reach bounds that count, and the only shape clauses (level ranges, concatenation) are far from sufficient (DESIGN.md section 4).",
     "C18": "optimality/exactness of the solution of an external MILP solver on a model built at run time; needs feature optim-mip and the solver's semantics; the only shape rule available would fire on behaviour-preserving edits (DESIGN.md section 4).",
